@@ -392,6 +392,32 @@ def apply_oracles(ctx, P, mon, pass_logs, opts):
         exp = oracles.E_mix(n, int(s) if s < n - 1 else n - 1) if n > 1 else 1
         ctx.require(mon.fwd_steps == exp, "C06.stream_steps",
                     lambda: {"forward_steps": mon.fwd_steps, "optimum": exp}, soft=True)
+    if cls == "TwoLevel" and ctx.is_fatal("C13.block_steps"):
+        p, b, bst = P["period"], P["b"], P["storage"]
+        nblocks = -(-n // p)
+        for j in range(mon.passes_done):
+            steps = [0] * nblocks
+            for ev in mon.events:
+                if ev[0] == "forward" and ev[3] == "reverse" and ev[4] == j:
+                    steps[ev[1] // p] += ev[2] - ev[1]
+            for k in range(nblocks):
+                L = min((k + 1) * p, n) - k * p
+                exp = L + oracles.E_bin(L, min(b + 1, L - 1)) if L > 1 else 1
+                ctx.require(steps[k] == exp, "C13.block_steps",
+                            lambda: {"pass": j, "block": k, "length": L, "forward_steps": steps[k],
+                                     "binomial_optimum": exp, "period": p, "binomial_snapshots": b},
+                            soft=True)
+        for ev in mon.events:
+            if ev[0] == "write" and ev[5] == "reverse":
+                ctx.require(ev[1] == bst and ev[4] == "ics", "C13.extra_storage",
+                            lambda: {"write": ev, "binomial_storage": bst}, soft=True)
+            if ev[0] == "write" and ev[5] == "forward":
+                ctx.require(ev[1] == DISK and ev[2] % p == 0 and ev[4] == "ics", "C13.forward_phase",
+                            lambda: {"write": ev}, soft=True)
+            if ev[0] == "load":
+                exp_src = DISK if ev[2] % p == 0 else bst
+                ctx.require(ev[1] == exp_src, "C13.extra_storage",
+                            lambda: {"load": ev, "expected_source": exp_src}, soft=True)
     if cls in REVOLVE_FAMILY and ctx.is_fatal("C07.cost"):
         T = oracles.CostTables(P["uf"], P["ub"], P["wd"], P["rd"])
         cost = stream_cost(P, mon)
